@@ -26,6 +26,11 @@ def run(R, job):
         t = core.Tag("div"); t.append(s); yield "append", t
         t = core.Tag("div"); t.extend([s]); yield "extend", t
         t = core.Tag("div", core.Tag("br")); t.insert(0, s); yield "insert", t
+        t = core.Tag("div"); t.extend(x for x in [s]); yield "extend-generator", t
+        t = core.Tag("div"); t.extend(iter([s])); yield "extend-iterator", t
+        t = core.Tag("div"); t.children.extend(map(str, [s])); yield "children-extend-map", t
+        t = core.Tag("div"); t.append(None, [s]); yield "append-several", t
+        t = core.Tag("div"); t.children += (x for x in [s]); yield "iadd-generator", t
         t = core.Tag("div"); t.children = core.TagList(s); yield "children", t
         yield "tagify", core.Tag("div", Tg(s)).tagify()
         yield "tagify-list", core.Tag("div", Tg(core.TagList(s))).tagify()
@@ -38,6 +43,13 @@ def run(R, job):
         yield "tagify-dep-text", core.Tag("div", Tg(core.TagList(dep, s))).tagify()
         yield "inline-after-metadata", core.Tag("span", dep, s, _add_ws=False)
         yield "list", core.TagList(s)
+        # next to trusted markup and self-rendering objects: the plain string is escaped all the same
+        yield "after-html", core.Tag("div", core.HTML("<i>h</i>"), s)
+        yield "after-repr", core.Tag("div", ctx.reprobj("<r/>"), s)
+        yield "between-html", core.Tag("span", core.HTML("<i>"), s, core.HTML("</i>"), s, _add_ws=False)
+        yield "list-after-html", core.TagList(core.HTML("<hr>"), s, ctx.reprobj("<r/>"), s)
+        yield "after-script", core.Tag("div", core.Tag("script", "a<b"), s)
+        yield "after-empty-html", core.Tag("div", core.HTML(""), s, _add_ws=False)
         yield "deep", core.Tag("div", core.Tag("p", core.Tag("span", s, _add_ws=False)))
         for nm in ("textarea", "title", "pre", "noscript", "option", "xmp"):
             yield "name:" + nm, core.Tag(nm, s)
@@ -61,9 +73,21 @@ def run(R, job):
                 ok = out == "<span>" + e + "</span>"
             elif how == "list":
                 ok = out == e
+            elif how == "after-html":
+                ok = out == "<div>\n  <i>h</i>" + e + "\n</div>"
+            elif how == "after-repr":
+                ok = out == "<div>\n  <r/>" + e + "\n</div>"
+            elif how == "between-html":
+                ok = out == "<span><i>" + e + "</i>" + e + "</span>"
+            elif how == "list-after-html":
+                ok = out == "<hr>" + e + "<r/>" + e
+            elif how == "after-script":
+                ok = out == "<div>\n  <script>a<b</script>\n  " + e + "\n</div>"
+            elif how == "after-empty-html":
+                ok = out == "<div>" + e + "</div>"
             elif how == "deep":
                 ok = out == "<div>\n  <p>\n    <span>" + e + "</span>\n  </p>\n</div>"
-            elif how in ("ctor", "nested", "append", "extend", "children", "tagify", "tagify-list"):
+            elif how in ("ctor", "nested", "append", "extend", "children", "tagify", "tagify-list", "extend-generator", "extend-iterator", "children-extend-map", "append-several", "iadd-generator"):
                 ok = out == "<div>" + e + "</div>"
             elif how.startswith("name:"):
                 ok = out == "<" + how[5:] + ">" + e + "</" + how[5:] + ">"
